@@ -144,9 +144,14 @@ pub fn upload_for(kind: Kind) -> Upload {
 }
 
 pub fn build_proof(c: &Case, key: &RecordKey) -> (ant_evm::ProofOfPayment, Vec<[u8; 32]>) {
+    build_proof_at(c, key, SystemTime::now())
+}
+
+/// The same with the clock reading the quotes are dated from given by the caller: two proofs built from one reading
+/// carry *the same* quotes wherever their cases agree (signatures are deterministic).
+pub fn build_proof_at(c: &Case, key: &RecordKey, now: SystemTime) -> (ant_evm::ProofOfPayment, Vec<[u8; 32]>) {
     let addr = rec::xorname_of_key(key);
     let other_addr = XorName::from_content(b"some other data the node quoted for");
-    let now = SystemTime::now();
     let ts_of = |age: usize| match age {
         0 => now - Duration::from_secs(30),
         1 => now - Duration::from_secs(2 * 3600),
@@ -386,6 +391,79 @@ fn unpaid_cases(run: &Run, stub: &Arc<EvmStub>) {
     }
 }
 
+/// Histories of two uploads to one node. The first is fully valid and paid — the contract confirms every quote — and is
+/// stored; the record then leaves the store again (pruned: `RemoveFailedLocalRecord`, what an eviction or the clean-up
+/// does). The second upload is for the same address and carries *the same own quote* (a quote stays valid for an hour)
+/// with exactly one payment condition failing. The address is not held, so this is new data: it must be refused and
+/// nothing stored, whatever the node remembers about the first upload. Also: the second upload valid again — stored.
+fn upload_histories(run: &Run, stub: &Arc<EvmStub>) -> u64 {
+    let mut n = 0u64;
+    let valid = |kind: Kind| Case { sig: 0, self_payee: true, all_close: true, far_known: false, age: 0, chain: 0, own_quote_for_address: true, own_quote_zero: false, kind, prior: Prior::Absent, age_on_own: false };
+    let seconds: Vec<Case> = cases(true).into_iter().filter(|c| c.prior == Prior::Absent && c.faults() <= 1 && c.kind == Kind::Chunk).collect();
+    for kind in KINDS {
+        for second in &seconds {
+            let mut c2 = second.clone();
+            c2.kind = kind;
+            if !c2.self_payee || !c2.own_quote_for_address || (c2.age != 0 && c2.age_on_own) {
+                continue; // the second proof would not carry the first one's own quote
+            }
+            n += 1;
+            let root = fresh_scratch("c03h");
+            let mut rig = NodeRig::new(SELF, &root, stub.clone());
+            rig.add_peers(&TABLE.collect::<Vec<u8>>());
+            let up = upload_for(kind);
+            let now = SystemTime::now();
+            let c1 = valid(kind);
+            let desc = json!({"history": "valid paid upload, record pruned, second upload for the same address with the same own quote", "second": describe(&c2)});
+            run.case(desc.to_string().as_bytes(), true);
+            stub.set(Chain::Paid);
+            let (p1, _) = build_proof_at(&c1, &up.key, now);
+            let r1 = (up.with_payment)(&p1);
+            let node = rig.node.clone();
+            let res1 = rig.run("upload-1", async move { node.validate_and_store_record(r1).await });
+            if !matches!(res1, Some(Ok(_))) || rig.stored(&up.key).is_none() {
+                run.violation("valid-payment-stores", "history/first-upload", format!("the first, fully valid upload was not stored ({res1:?}) for {desc}"), json!({"case": desc}));
+                continue;
+            }
+            let _ = rig.d.handle_local(ant_networking::verif_hooks::LocalSwarmCmd::RemoveFailedLocalRecord { key: up.key.clone() });
+            rig.settle();
+            if rig.stored(&up.key).is_some() || rig.contains(&up.key) {
+                run.machinery_error("C03 histories: the record is still held after RemoveFailedLocalRecord");
+            }
+            let listed_before = rig.listed();
+            let (p2, hashes) = build_proof_at(&c2, &up.key, now);
+            match c2.chain {
+                0 => stub.set(Chain::Paid),
+                1 | 6 | 7 => stub.set_unpaid_hashes(&hashes),
+                2 => stub.set(Chain::RpcError),
+                3 => stub.set(Chain::Http503),
+                4 => stub.set(Chain::Http429),
+                _ => stub.set(Chain::Hangup),
+            }
+            let r2 = (up.with_payment)(&p2);
+            let node = rig.node.clone();
+            let res2 = rig.run("upload-2", async move { node.validate_and_store_record(r2).await });
+            let after = rig.stored(&up.key);
+            run.outcome(format!("history:{:?}/{}", res2.as_ref().map(|r| r.is_ok()), after.is_some()).as_bytes());
+            match res2 {
+                None => run.violation("completes", "blocked", format!("the second upload never completed for {desc}"), json!({"case": desc})),
+                Some(res2) => {
+                    if c2.all_conditions_hold() {
+                        if after.is_none() || res2.is_err() {
+                            run.violation("valid-payment-stores", "history/second-upload", format!("a second, fully valid upload of a pruned record was refused ({res2:?}) for {desc}"), json!({"case": desc}));
+                        }
+                    } else if after.is_some() || rig.listed() != listed_before || res2.is_ok() {
+                        run.violation("invalid-payment-stores-nothing", "history/own-quote-seen-before", format!("a payment condition fails on the second upload (result {res2:?}, stored: {}) for {desc}", after.is_some()), json!({"case": desc}));
+                    }
+                }
+            }
+            drop(rig);
+            let _ = std::fs::remove_dir_all(&root);
+        }
+    }
+    n
+}
+
 pub fn cases(quick: bool) -> Vec<Case> {
     let mut v = vec![];
     enumerate::product(&[4, 2, 3, 3, 8, 3, 4, 4, 2], |ix| {
@@ -424,7 +502,8 @@ pub fn main(tier: Option<&str>) {
          chain answer 8 (paid, this node's quote unpaid, JSON-RPC error, HTTP 503 / 429 / connection closed on every attempt, another payee's quote unpaid while this node's is paid, a five-quote proof of whose first three quotes — none this node's — the contract reports: unpaid) x quoted address 3 (this address, another address, the all-zero content)) x kind 4 x prior content 4 (nothing, the same version, another version, a record of another kind under the same key — scratchpad and transaction of one owner); quick = full product for chunks on an empty store + every single \
          and double fault for the other kinds + single faults on held keys, thorough = full product. Each case runs the real \
          Node::validate_and_store_record on a fresh real SwarmDriver under the default (FIFO) schedule to quiescence, the payment \
-         contract answered by a loopback JSON-RPC stub. Plus every unpaid kind x prior content. Non-trivial = at least one condition \
+         contract answered by a loopback JSON-RPC stub. Plus every unpaid kind x prior content, and histories of two uploads for one address (valid and stored, record pruned, \
+         then every single failing condition with the same own quote) per kind. Non-trivial = at least one condition \
          fails or the key is already held.",
     );
     run.assume("sequential check: one upload at a time under the FIFO schedule (overlapping uploads are C07's subject)");
@@ -448,6 +527,8 @@ pub fn main(tier: Option<&str>) {
     });
     let stub = Arc::new(EvmStub::start());
     unpaid_cases(&run, &stub);
+    let histories = upload_histories(&run, &stub);
+    run.extra("two_upload_histories", json!(histories));
     run.count("states", total as u64);
     run.count("transitions", total as u64);
     run.count("traces_validated_against_impl", total as u64);
